@@ -179,6 +179,20 @@ def writeIp6Ext (nextAndData : Nat × Bytes) : Bytes :=     -- IPv6::write_heade
 
 /-! ### `write_serialization` -/
 
+/-- the `payload_type` `EthernetII::write_serialization` stores: PPPoE by its stage, two 802.1Q tags as 802.1ad, otherwise
+    the table of `pdu_flag_to_ether_type`; the user's value when the class has no EtherType -/
+def ethPayloadType (type : Nat) (rest : List Layer) : Nat :=
+  match rest.head? with
+  | none => TagsC05.ethUNKNOWN                                     -- payload_type(Constants::Ethernet::UNKNOWN)
+  | some n =>
+    let f := match n with
+      | .pppoe code .. => if code = 0 then TagsC05.ethPPPOES else TagsC05.ethPPPOED
+      | .dot1q .. => (match (rest.drop 1).head? with
+          | some (.dot1q ..) => TagsC05.ethQINQ
+          | _ => flagToEther n)
+      | n => flagToEther n
+    if f ≠ TagsC05.ethUNKNOWN then f else type
+
 /-- `write_serialization(buffer, total_sz)` of layer `l`: `inner` are the bytes the inner PDU has already written at
     `buffer + header_size()`, `rest` the inner stack, `parent` the enclosing layer.  Returns the whole buffer. -/
 def write (l : Layer) (rest : List Layer) (inner : Bytes) (parent : Option Layer) : Bytes :=
@@ -188,16 +202,7 @@ def write (l : Layer) (rest : List Layer) (inner : Bytes) (parent : Option Layer
   let totalSz := headerSize l + inner.length + trl
   match l with
   | .eth dst src type =>
-    let flag := match nxt with
-      | none => TagsC05.ethUNKNOWN                                     -- payload_type(Constants::Ethernet::UNKNOWN)
-      | some n =>
-        let f := match n with
-          | .pppoe code .. => if code = 0 then TagsC05.ethPPPOES else TagsC05.ethPPPOED
-          | .dot1q .. => (match (rest.drop 1).head? with
-              | some (.dot1q ..) => TagsC05.ethQINQ
-              | _ => flagToEther n)
-          | n => flagToEther n
-        if f ≠ TagsC05.ethUNKNOWN then f else type
+    let flag := ethPayloadType type rest
     dst ++ src ++ w16 flag ++ inner ++ zeros trl
   | .dot1q prio cfi id type _ =>
     let flag := match nxt with
